@@ -40,13 +40,14 @@ Pure expressions.  'c' -> code point (char), 'text' -> code points, None, ints (
 Raising expressions (allowed as the right-hand side of an assignment, an assert test `E == 'c'`, the argument of raise):
   s[0], s[-1] -> str_first / str_last, None => IndexError;  int(x);  _printable_prefix(x);  calls of translated functions;
   functools.reduce(frozenset.__and__, (a.types for a in L)) -> py_reduce_tand L.
-Statements (rest = what follows).  v = e -> let;  v op= e;  `if` / `elif` / `else`: when at most one statement follows, it is
-  duplicated into the branches, otherwise the branches return the tuple of the variables they assign and rest is bound once
-  (bbind);  `if x is None` / `is not None` on a variable of an opt kind -> match, the variable has the plain kind in the Some branch;
+Statements (rest = what follows).  v = e -> let;  v op= e;  `if` / `elif` / `else`: when at most one statement follows or a branch
+  ends in raise, rest is translated inside the branches, otherwise the branches return the tuple of the variables they assign
+  (after a call that changes the objects: also the state variables) and rest is bound once (bbind);  `if x is None` / `is not None` on a variable of an opt kind -> match, the variable has the plain kind in the Some branch;
   assert c -> if negb c then BRaise (XCrash CAssertion);  raise C(args) -> BRaise per RAISES (args evaluated if raising, else
   dropped but checked);  pass;  try: ONE call statement except K1: raise .. except K2: raise .. -> match on the call's result, handlers
   in source order (K in IndexError, OverflowError);  for v in L: body -> a top-level Fixpoint over L whose parameters are the
-  live variables and whose result is the tuple of the outer variables the body assigns (no break / continue / else);
+  live variables and whose result is the tuple of the outer variables the body assigns, in order of first definition (no break /
+  continue / else);
   for k, args in self._argument_map.items(): body -> the same over the entries, the entry (k, args) with args as possibly
   updated by the body is appended to the rebuilt map, which becomes the attribute afterwards;  for a in args: a.types = e ->
   args := map (fun _ => Some e) args;  arguments.add(x) -> set_add;  L += [x] -> L ++ [x].
@@ -548,8 +549,10 @@ class Fn:
             return branches(k, rest)
         # join: the branches return the variables they assign
         names = [n for n in assigned([s]) if n.replace('self.', '') not in DROPPED[self.mod]]
-        if '!state' in names:
-            names = [n for n in names if n != '!state'] + [x for x in ('parent', '!self') if x in env or x == 'parent']
+        if '!state' in names:       # a call that changes the object state: the state variables of this function are assigned
+            names = [n for n in names if n != '!state'] + (['parent'] + [x for x in ('!self',) if x in env] if self.qual == 'Field.__init__'
+                                                           else self.stateattrs or bad(s, 'state change in a function without state'))
+            names = list(dict.fromkeys(names))
         ends, saved = [], (self.n, len(self.loops))
         branches(lambda e2: ends.append(e2) or 'X', [])            # first pass: the kinds at the end of each path
         self.n = saved[0]
@@ -629,7 +632,7 @@ class Fn:
         outs = [n for n in assigned(s.body) if n.replace('self.', '') not in DROPPED[self.mod]]
         if '!state' in outs:
             outs = [n for n in outs if n != '!state'] + (['parent'] if self.qual == 'Field.__init__' else self.stateattrs)
-        outs = [n for n in dict.fromkeys(outs) if n in env and n not in inner]
+        outs = [n for n in env if n in outs and n not in inner and not n.startswith('!')]      # in order of first definition
         if itemsloop:
             outs = []
         params = [n for n in env if not n.startswith('!') and n not in inner and env[n][1] in TYPES]
